@@ -9,9 +9,12 @@
             | pushref D <ci> <s> | mount D <ci|-> | preds D | bresolve <s> | bfetchref <s>
        D    = <mt> <dg> <sz>
    Seek case:
-     <id> S <content> <nops> (r <n> | s <off> <0|1|2> | c)*
+     <id> S <content> <nmodes> (<chunk> <eof-with-data:0|1>)* <nops> (r <n> | s <off> <0|1|2> | c)*
+       (the i-th response body behaves as mode i mod nmodes; r = ONE Read call with a buffer of n bytes)
    Request-grammar case (the formal [allowed] against the harness's endpoint table):
      <id> A <METHOD> <repo> <epkind> <arg> <digest> <mountd> <from> <ctype> <clen> <ra> <rb> <body>
+   Upload location case (Model/Location.v):
+     <id> U <scheme> <host> <port> <Location header> <digest>     -> url:<PUT url> | UNJUDGED
    All strings hex encoded, "-" = empty. *)
 
 let z_of_int (i : int) : z =
@@ -161,25 +164,31 @@ let history toks =
 
 let seek toks =
   match toks with
-  | c :: n :: rest ->
+  | c :: nm :: rest ->
     let content = str_of_hex c in
     let t = ref rest in
     let next () = match !t with x :: r -> t := r; x | [] -> failwith "eol" in
-    let ops = List.init (int_of_string n) (fun _ ->
+    let nm = int_of_string nm in
+    let ms = Array.init nm (fun _ ->
+      let ch = n_of_int (int_of_string (next ())) in
+      let e = next () = "1" in { bm_chunk = ch; bm_eofd = e }) in
+    let modes (i : nat) = if nm = 0 then { bm_chunk = N0; bm_eofd = false } else ms.(int_of_nat i mod nm) in
+    let n = int_of_string (next ()) in
+    let ops = List.init n (fun _ ->
       match next () with
       | "r" -> SRead (n_of_int (int_of_string (next ())))
       | "s" -> let off = z_of_int (int_of_string (next ())) in
         let w = match next () with "0" -> SeekStart | "1" -> SeekCurrent | _ -> SeekEnd in
         SSeek (off, w)
       | _ -> SClose) in
-    let out = rsc_run content (rsc_open content (n_of_int (List.length content))) ops in
+    let out = rsc_run modes content (rsc_open content (n_of_int (List.length content))) ops in
     String.concat " | " (List.map (fun (rq, o) ->
       (match rq with
        | [] -> "-"
        | _ -> String.concat "+" (List.map (fun (a, b) -> show_n a ^ "-" ^ show_n b) rq))
       ^ ":" ^
       (match o with
-       | SBytes c -> "bytes:" ^ hx c
+       | SData (c, e) -> "data:" ^ hx c ^ (if e then ":eof" else ":more")
        | SPos n -> "pos:" ^ show_n n
        | SErr -> "err"
        | SClosed -> "closed")) out)
@@ -216,5 +225,9 @@ let () =
        with Unjudged -> Printf.printf "%s UNJUDGED\n" id)
     | id :: "S" :: rest -> Printf.printf "%s %s\n" id (seek rest)
     | id :: "A" :: rest -> Printf.printf "%s %s\n" id (grammar rest)
+    | [id; "U"; sch; host; port; loc; dg] ->
+      (match put_url_str (str_of_hex sch) (str_of_hex host) (str_of_hex port) (str_of_hex loc) (str_of_hex dg) with
+       | Some u -> Printf.printf "%s url:%s\n" id (hex_of_str u)
+       | None -> Printf.printf "%s UNJUDGED\n" id)
     | [] -> ()
     | _ -> Printf.printf "BADLINE %s\n" l)
